@@ -239,7 +239,7 @@ def pair(ctx: Any) -> List[Ob]:
     live[f'{me}._query_heap'] = ['q']
     live['.cancelled'] = False
     live['.when_millis'] = 0.0
-    oc, _ = traces(ctx, proc, {**live, 'end_time_millis': 1.0}, eff, loop_bound=1, for_iter=lambda n, e: False)
+    oc, _ = traces(ctx, proc, {**live, 'current_time_millis()': 1000.0, '._clock_resolution_millis': 1.0}, eff, loop_bound=1, for_iter=lambda n, e: False)
     got = {tuple(x for x in strip_ret(t)) for t in oc}
     obs.append(ob(R, proc, 'query = heappop(self._query_heap); del self._next_scheduled_for_alias[...]', 'a due, live query taken from the heap is removed from the schedule map', bool(got) and all(t.count('POP') == t.count('UNMAP') and t.count('POP') >= 1 for t in got), str(sorted(got))))
     canc = dict(atoms)
